@@ -16,7 +16,7 @@ PREFIXES = ["kilo", "milli", "micro", "mega", "nano", "giga"]
 OPS = {"add": operator.add, "sub": operator.sub, "mul": operator.mul, "truediv": operator.truediv, "floordiv": operator.floordiv,
        "mod": operator.mod, "divmod": divmod, "lt": operator.lt, "le": operator.le, "gt": operator.gt, "ge": operator.ge,
        "iadd": operator.iadd, "isub": operator.isub, "imul": operator.imul, "itruediv": operator.itruediv,
-       "ifloordiv": operator.ifloordiv, "imod": operator.imod}
+       "ifloordiv": operator.ifloordiv, "imod": operator.imod, "pow": operator.pow, "ipow": operator.ipow}
 
 
 def qj(q):
@@ -61,8 +61,10 @@ class Check(Property):
             out.append({"kind": "object", "a": a, "mtype": rng.choice(["int", "float", "fraction", "decimal", "array", "array2"]),
                         "ops": [{"op": "reset"}, {"op": "ser", "f": "tuple", "a": a}, {"op": "ser", "f": "unpickle", "a": a}, {"op": "reset"}]})
         for on in OPS:
-            for ka in ("q", "unit", "qarr", "meas", "gq", "gunit"):
-                for kb in ("q", "unit", "qarr", "meas", "gq", "gunit"):
+            for ka in ("q", "unit", "qarr", "meas", "gq", "gunit", "qd"):
+                for kb in ("q", "unit", "qarr", "meas", "gq", "gunit", "qd"):
+                    if ("qd" in (ka, kb)) != (on in ("pow", "ipow")):
+                        continue          # the dimensionless kind serves the power operators (an exponent must be dimensionless)
                     self.bump("cross")
                     out.append({"kind": "cross", "op": on, "a": ka, "b": kb, "ops": [{"op": "ser", "f": "cross", "op_": on, "op": "ser"}]})
         self.bump("exceptions")
@@ -147,6 +149,8 @@ class Check(Property):
             return u.Quantity(2, "meter")
         if kind == "unit":
             return u.meter
+        if kind == "qd":
+            return u.Quantity(2.0, "")
         if kind == "qarr":
             return u.Quantity(np.array([1.0, 2.0]), "meter")
         return u.Measurement(2.0, 0.1, "meter")
